@@ -162,7 +162,7 @@ def sgn(x, tol=0.0):
     return 0 if abs(x) <= tol else (1 if x > 0 else -1)
 
 
-def locking(obs, chain, emit, dts, starts, cover=None):
+def locking(obs, chain, emit, dts, starts, cover=None, duty_overrides=None):
     """Runs the reference lock automaton alongside the recorded trajectory.
 
     starts: dict  k -> {'D': duty cycle in force before the fresh run (motor
@@ -196,6 +196,10 @@ def locking(obs, chain, emit, dts, starts, cover=None):
             if not _close(Tm_prev, m['torque'][k - 1], chain.Tmax * 1e-6 + abs(Tl_m) * 1e-9):
                 emit('motor-net-torque', 'motor net torque at a recorded instant = characteristic(recorded speed, duty) - reflected load', k - 1,
                      {'recorded': m['torque'][k - 1], 'reference': Tm_prev, 'D': pwm[k - 1], 'w_motor': m['angular speed'][k - 1]})
+            if duty_overrides and k in duty_overrides:
+                # the user set the duty cycle by hand between two runs: that value is in force at the first continued
+                # instant (the motor net torque of the previous instant still belongs to the previous duty cycle)
+                D_f = duty_overrides[k]
             w_pre = (last['angular speed'][k - 1]
                      + last['angular acceleration'][k - 1] * dts[k]) * chain.up[0]
         w_m = m['angular speed'][k]
